@@ -208,7 +208,9 @@ class UCFG(UGrammar[U, List[Tuple[Type, U]], List[Tuple[Type, U]]], Generic[U]):
                 else:
                     rules[NT][P] = self.rules[NT][P]
         # Cleaning produces infinite loop
-        return self.__class__(self.starts, rules, clean=False)
+        grammar = self.__class__(self.starts, rules, clean=False)
+        grammar.type_request = self.type_request
+        return grammar
 
     @classmethod
     def depth_constraint(
